@@ -80,4 +80,51 @@ theorem forEnumFrom_scatter_add (g : Nat → Rat) : ∀ (l : List Nat) (k : Nat)
     · have h' : ¬ j = v := fun e => h e.symm
       simp [upd, h, h']
 
+/-- `for i in l: a[i] = c` -/
+theorem forEach_wr_const {α : Type} (c : α) : ∀ (l : List Nat) (a : Attr α) (v : Nat),
+    forEach l a (fun a i => wr a i c) v = if v ∈ l then c else a v := by
+  intro l
+  induction l with
+  | nil => intro a v; simp [forEach]
+  | cons i is ih =>
+    intro a v
+    simp only [forEach, List.foldl_cons] at ih ⊢
+    rw [ih]
+    by_cases h1 : v ∈ is <;> by_cases h2 : v = i <;> simp [wr, h1, h2]
+
+/-- positions of `v` in `l`, numbered from `k` -/
+theorem zipIdx_positions (v : Nat) : ∀ (l : List Nat) (k : Nat),
+    (l.zipIdx k).filterMap (fun p => if p.1 = v then some p.2 else none) = (indicesWhere l v).map (· + k) := by
+  intro l
+  induction l with
+  | nil => intro k; simp [indicesWhere]
+  | cons x xs ih =>
+    intro k
+    rw [List.zipIdx_cons, List.filterMap_cons, ih (k + 1)]
+    simp only [indicesWhere, List.length_cons, List.range_succ_eq_map, List.filter_cons, List.getD_cons_zero, List.filter_map,
+      List.map_map]
+    have hcomp : ((fun i => (x :: xs).getD i 0 == v) ∘ Nat.succ) = (fun i => xs.getD i 0 == v) := by
+      funext i; simp
+    by_cases h : x = v
+    · simp [h, hcomp, Function.comp_def]; intro a _; omega
+    · simp [h, hcomp, Function.comp_def]; intro a _; omega
+
+/-- the corner loop of `angle_defects`: every corner whose vertex is not skipped is appended to the list of its vertex -/
+theorem corner_scatter_append (P : Nat → Bool) : ∀ (l : List Nat) (k : Nat) (a : Attr (Nat × List Nat)) (v : Nat),
+    forEnumFrom k l a (fun a c w => if P w then a else upd a w (fun d => (d.1, d.2 ++ [c]))) v
+      = if P v then a v else ((a v).1, (a v).2 ++ (l.zipIdx k).filterMap (fun p => if p.1 = v then some p.2 else none)) := by
+  intro l
+  induction l with
+  | nil => intro k a v; simp [forEnumFrom]
+  | cons w ws ih =>
+    intro k a v
+    rw [forEnumFrom, ih, List.zipIdx_cons, List.filterMap_cons]
+    by_cases hP : P v
+    · by_cases hw : w = v
+      · subst hw; simp [hP]
+      · by_cases hPw : P w <;> simp [hP, hPw, upd, hw, Ne.symm hw]
+    · by_cases hw : w = v
+      · subst hw; simp [hP, upd]
+      · by_cases hPw : P w <;> simp [hP, hPw, upd, hw, Ne.symm hw]
+
 end Mouette.GeomSrc
